@@ -79,6 +79,13 @@ class Site:
         return "%s|%s|%s|#%d" % (self.fn.path, self.kind, self.descr, self.ordinal)
 
 
+def head_of(site):
+    """Callee (for calls) or assert operator: the part of a site that survives operand reshaping."""
+    if site.kind.startswith("call:"):
+        return M.callee_of(site.term) if site.term.get("res") else M.callee_decl(site.term)
+    return site.kind
+
+
 def short(t, n=160):
     s = M.render(t)
     return s if len(s) <= n else s[:n] + "…"
@@ -266,6 +273,18 @@ class Table:
     def __init__(self, entries=None):
         self.entries = entries if entries is not None else load_table()
         self.used = [0] * len(self.entries)
+        self.exact_present = {}
+
+    def match_reshaped(self, site):
+        """Fallback: a reviewed site whose operands were reshaped by an edit keeps its
+        line when function, kind and head (callee / assert operator) agree and the line
+        has not been consumed by an exactly matching site; its guards are still re-checked."""
+        h = head_of(site)
+        for i, e in enumerate(self.entries):
+            if "fn" in e and e["fn"] == site.fn.path and e["kind"] == site.kind and e.get("head") == h and self.used[i] == 0 \
+                    and not self.exact_present.get(i):
+                return i, e
+        return None, None
 
     def match(self, site):
         """Return (entry_index, entry) of the first table line covering this site."""
@@ -303,6 +322,12 @@ def decide_sites(ctx, rule, prog, fns, table=None, label=""):
     table = table or Table()
     sites = analyse(prog, fns)
     n_auto = n_tab = 0
+    # first pass: which lines have an exactly matching site on this tree
+    for s in sites:
+        if not s.discharge:
+            i, e = table.match(s)
+            if e is not None:
+                table.exact_present[i] = True
     for s in sites:
         ctx.saw(s.fn)
         key = s.key()
@@ -311,6 +336,10 @@ def decide_sites(ctx, rule, prog, fns, table=None, label=""):
             ctx.ob(rule, key, True, s.where, "%s: %s" % s.discharge, s.fn)
             continue
         i, e = table.match(s)
+        if e is None:
+            i, e = table.match_reshaped(s)
+            if e is not None:
+                ctx.note("reviewed site reshaped (same function/kind/head, guards re-checked): %s" % key[:200])
         if e is None:
             ctx.ob(rule, key, False, s.where,
                    "unreviewed panic-capable construct `%s` reachable from the %s entry points: %s" % (s.kind, label, s.descr), s.fn)
